@@ -17,6 +17,7 @@ import re
 from typing import Any
 
 from .c19_lib import MISSING
+from .c19_lib import TRICKY_WORDS
 from .c19_lib import effective
 from .c19_lib import g_float
 from .c19_lib import g_int
@@ -52,12 +53,16 @@ def gen_sort(rng: random.Random, i: int) -> dict[str, Any]:
         return {"mode": "numbers", "x": nest(rng, g_list(rng, pool, 0, 8), 0.25), "pseed": ps}
     if m < 0.34:
         pool = [g_text(rng, 0, 4) for _ in range(4)] + ["a", "B", "b", "A", "Sally Snake", "zebra", "", "é"]
+        if rng.random() < 0.4:
+            pool = rng.sample(TRICKY_WORDS, 6) + ["a", "B"]
         return {"mode": "strings", "x": g_list(rng, pool, 0, 8), "pseed": ps}
     if m < 0.42:
         pool = [1, "a", None, [], {}, 2.5, True, "4", {"k": 1}, [2]]
         return {"mode": "mixed", "x": g_list(rng, pool, 0, 6), "pseed": ps}
     if m < 0.52:
         pool = [g_word(rng) for _ in range(4)] + [rng.randint(0, 2000) for _ in range(3)] + ["b", "B", "a", "A"]
+        if rng.random() < 0.5:
+            pool = rng.sample(TRICKY_WORDS, 6) + [g_word(rng), "b", "B"]
         return {"mode": "natural", "x": g_list(rng, pool, 0, 8), "pseed": ps}
     if m < 0.64:
         pool = ([_version(rng) for _ in range(4)] + [rng.randint(-5, 300) for _ in range(2)]
@@ -82,6 +87,8 @@ def gen_sort(rng: random.Random, i: int) -> dict[str, Any]:
         vals = [g_int(rng) for _ in range(2)] + [g_float(rng), 1, 1.0, 2, 0]
     elif kind == "natural":
         vals = [g_word(rng) for _ in range(3)] + [rng.randint(0, 2000), "b", "B"]
+        if rng.random() < 0.5:
+            vals = rng.sample(TRICKY_WORDS, 5) + [g_word(rng)]
     else:
         vals = [_version(rng) for _ in range(3)] + [rng.randint(0, 99), g_word(rng)]
     x = []
